@@ -11,13 +11,21 @@ falcon.asgi.App; fault placements are switched per request without rebuilding th
 
 import itertools
 import os
+import sys
 
-import falcon
-import falcon.asgi
+# docs/api/routing.rst: custom HTTP methods are enabled with this variable (read when falcon is imported);
+# check.py's parent imports this module first, so the shard children inherit it.
+if 'falcon' not in sys.modules:
+    os.environ.setdefault('FALCON_CUSTOM_HTTP_METHODS', 'FOO,BAR')
 
-from vlib.drivers import asgi as A
-from vlib.drivers import wsgi as W
-from vlib.models import c03_stack as M
+import falcon  # noqa: E402
+import falcon.asgi  # noqa: E402
+
+from vlib.drivers import asgi as A  # noqa: E402
+from vlib.drivers import wsgi as W  # noqa: E402
+from vlib.models import c03_stack as M  # noqa: E402
+
+CUSTOM_OK = all(m in os.environ.get('FALCON_CUSTOM_HTTP_METHODS', '').split(',') for m in M.CUSTOM)
 
 LEVEL = 'fault_enumeration'
 SHARDS = {'quick': 4, 'thorough': 16}
@@ -157,6 +165,9 @@ def build_component(ctx, i, comp, stack, lctx=None):
             async def process_startup(self, scope, event, _i=i):
                 lctx['trace'].append(('startup', _i))
                 lctx['log'].append(('call', 'startup', _i, event.get('type'), scope.get('type')))
+                cb = lctx.get('in_startup', {}).get(_i)
+                if cb is not None:
+                    cb()
                 if lctx['actions'].get('M%d.startup' % _i) == 'raise':
                     raise RuntimeError('startup %d' % _i)
             ns['process_startup'] = process_startup
@@ -219,8 +230,7 @@ def build_resource(ctx, script, stack):
     def deco(kind, hid):
         return falcon.before(before_hook, hid) if kind == 'before' else falcon.after(after_hook, hid)
 
-    fns = {'on_get': responder('on_get'), 'on_get_f': responder('on_get_f'),
-           'on_get_items': responder('on_get_items')}
+    fns = {name: responder(name) for name in M.all_responders()}
     for kind, hid in reversed(list(script.get('hooks_method', ()))):      # innermost applied first
         fns['on_get'] = deco(kind, hid)(fns['on_get'])
     inherit = set(script.get('inherit', ()))
@@ -236,27 +246,45 @@ def build_resource(ctx, script, stack):
     return cls(), falsy_cls()
 
 
-def build_app(script, stack, lctx=None):
+def build_app(script, stack, lctx=None, defer_from=None):
+    """defer_from=n: components with index >= n are built but NOT registered; ctx.add_pending() registers
+    them later with App.add_middleware() (between requests, between lifespan events, ...)."""
     ctx = Ctx(script)
     mws = []
     for i, comp in enumerate(script['comps']):
         mw = build_component(ctx, i, comp, stack, lctx)
         if mw is not None:
-            mws.append(mw)
+            mws.append((i, mw))
     cls = falcon.App if stack == 'wsgi' else falcon.asgi.App
     n_ctor = script.get('ctor')
-    if n_ctor is None or n_ctor >= len(mws):
-        app = cls(middleware=mws, independent_middleware=script['independent'])
-    else:
+    single = bool(script.get('add_single'))
+
+    def add(items):
         # "as if they had been appended to the original middleware list" (App.add_middleware)
-        first = mws[:n_ctor]
-        app = cls(middleware=(first[0] if len(first) == 1 and script.get('add_single') else first or None),
-                  independent_middleware=script['independent'])
-        if script.get('add_single'):
-            for mw in mws[n_ctor:]:
+        if single:
+            for mw in items:
                 app.add_middleware(mw)
-        else:
-            app.add_middleware(mws[n_ctor:])
+        elif items:
+            app.add_middleware(items)
+
+    if defer_from is not None:
+        now = [mw for i, mw in mws if i < defer_from]
+        ctx.pending = [mw for i, mw in mws if i >= defer_from]
+    else:
+        now = [mw for _, mw in mws]
+        ctx.pending = []
+    if n_ctor is None or defer_from is not None and n_ctor >= defer_from:
+        first, later = now, []
+    else:
+        first, later = [mw for i, mw in mws if i < n_ctor and mw in now], [mw for i, mw in mws if i >= n_ctor and mw in now]
+    app = cls(middleware=(first[0] if len(first) == 1 and single else first or None),
+              independent_middleware=script['independent'])
+    add(later)
+
+    def add_pending():
+        items, ctx.pending = ctx.pending, []
+        add(items)
+    ctx.add_pending = add_pending
     ctx.res, ctx.falsy = build_resource(ctx, script, stack)
     app.add_route('/r', ctx.res)
     app.add_route('/f/{x}', ctx.res, suffix='f')
@@ -281,16 +309,10 @@ def build_app(script, stack, lctx=None):
     return app, ctx
 
 
-REQUESTS = {
-    'route': ('GET', '/r'), 'field': ('GET', '/f/7'), 'suffix': ('GET', '/i'), 'options': ('OPTIONS', '/r'),
-    'nomethod': ('POST', '/r'), 'falsy': ('GET', '/z'), 'sink': ('GET', '/s/abc'), 'unrouted': ('GET', '/nope'),
-}
-
-
 def drive(app, ctx, case):
     """-> (trace, status, escaped exception or None, outcome)"""
     ctx.begin(case)
-    method, path = REQUESTS[case['kind']]
+    method, path = M.kind_request(case['kind'])
     if case['stack'] == 'wsgi':
         env = W.make_environ(method, path)
         res = W.run_wsgi(app, env)
@@ -319,8 +341,20 @@ def classify(script, case, got, want):
     return None
 
 
+BLANK = {'req': None, 'rsrc': None, 'resp': None, 'startup': False, 'shutdown': False}
+
+
+def registered_script(script, case):
+    """The script as the framework knows it while the trailing components are not registered yet
+    (case['pre_add'] = index of the first unregistered component); site numbering is unchanged."""
+    n = case.get('pre_add')
+    if n is None:
+        return script
+    return dict(script, comps=[c if i < n else BLANK for i, c in enumerate(script['comps'])])
+
+
 def check_case(rec, script, case, app, ctx, count=True):
-    want_trace, want_status, classes = M.interpret(script, case)
+    want_trace, want_status, classes = M.interpret(registered_script(script, case), case)
     try:
         trace, status, exc, outcome = drive(app, ctx, case)
     except Exception as ex:  # noqa  (driver or generated object failed: not a verdict on falcon by itself)
@@ -385,12 +419,12 @@ def script_key(script):
     return (script['independent'], tuple(tuple(sorted(c.items(), key=str)) for c in script['comps']),
             tuple(map(tuple, script.get('hooks_class', ()))), tuple(map(tuple, script.get('hooks_method', ()))),
             tuple(sorted(script.get('inherit', ()))), tuple(map(tuple, script.get('hooks_base', ()))),
-            script.get('ctor'), script.get('add_single'))
+            script.get('ctor'), script.get('add_single'), script.get('add_after_requests'))
 
 
 def case_key(skey, case):
     return (skey, case['stack'], case['kind'], tuple(sorted(case['actions'].items())),
-            tuple(case.get('hactions') or ()))
+            tuple(case.get('hactions') or ()), case.get('pre_add'))
 
 
 def nontrivial(case):
@@ -412,11 +446,12 @@ def reachable_sites(script, kind):
         for m in METHODS:
             if c.get(m):
                 sites.append('M%d.%s' % (i, m))
-    if kind in ('route', 'falsy', 'field', 'suffix'):
-        hooks = M.responder_hooks(script, M.KINDS[kind][3])
+    has_responder = kind in ('route', 'falsy', 'field', 'suffix') or kind.startswith(('m:', 'ms:'))
+    if has_responder:
+        hooks = M.responder_hooks(script, M.kind_info(kind)[3])
     else:
         hooks = []
-    if kind in ('route', 'falsy', 'field', 'suffix'):
+    if has_responder:
         sites += [('B%d' if k == 'before' else 'A%d') % h for k, h in hooks]
         sites.append('R')
     if kind == 'sink':
@@ -434,7 +469,10 @@ def site_actions(site, reduced):
     return acts
 
 
-def placements(sites, max_faults, reduced_from=2):
+H_PAIRS = (('http_error', 'ret'), ('ret', 'http_status'), ('ret', 'ret'), ('http_status', 'http_error'))
+
+
+def placements(sites, max_faults, reduced_from=2, n_hpairs=4):
     """All assignments of a non-'ret' action to up to max_faults sites (+ handler action when relevant)."""
     yield {}, ['ret']
     for nf in range(1, max_faults + 1):
@@ -450,23 +488,32 @@ def placements(sites, max_faults, reduced_from=2):
                         yield actions, [ha]
                 else:
                     # the handler can run several times: vary its behaviour per invocation
-                    for has in (('ret', 'ret'), ('http_error', 'ret'), ('ret', 'http_status'), ('http_status', 'http_error')):
+                    for has in H_PAIRS[:n_hpairs]:
                         yield actions, list(has)
 
 
 # class-level after innermost on a class that inherits on_get / on_get_items and defines on_get_f itself
 EXH_HOOKS = {'hooks_class': [['before', 0], ['after', 3]], 'hooks_method': [['after', 1], ['before', 2]],
-             'inherit': ['on_get', 'on_get_items'], 'hooks_base': []}
-EXH_KINDS = ('route', 'sink', 'unrouted', 'nomethod', 'options', 'field')
+             'inherit': ['on_get', 'on_get_items'] + M.all_responders()[3::2], 'hooks_base': []}
+def method_kinds():
+    ms = M.HTTP_EXTRA + M.WEBDAV + (M.CUSTOM if CUSTOM_OK else ())
+    return ['m:' + m for m in ms] + ['ms:' + m for m in M.SUFFIXED_EXTRA if m in ms]
 
 
 def exhaustive_plan(tier):
     """[(max components, {kind: (max faults, number of faults from which the reduced action set is used)})]"""
     if tier == 'quick':
-        return [(2, {'route': (2, 2), 'sink': (1, 2), 'unrouted': (1, 2), 'nomethod': (1, 2), 'options': (1, 2),
-                     'field': (1, 2), 'suffix': (1, 2), 'falsy': (1, 2)})]
-    return [(2, {'route': (3, 3), 'sink': (2, 3), 'unrouted': (2, 3), 'nomethod': (2, 3), 'options': (2, 3),
-                 'field': (2, 3), 'suffix': (1, 2), 'falsy': (2, 3)}),
+        plan = {'route': (2, 2), 'sink': (1, 2), 'unrouted': (1, 2), 'nomethod': (1, 2), 'options': (1, 2),
+                'field': (1, 2), 'suffix': (1, 2), 'falsy': (1, 2)}
+        # every other implemented method (HTTP, WebDAV, custom; plain and suffixed): fault-free, and single
+        # faults for one representative of each class
+        plan.update({k: (0, 2) for k in method_kinds()})
+        plan.update({k: (1, 2) for k in ('m:PROPFIND',) if k in plan})
+        return [(2, plan)]
+    plan = {'route': (3, 3), 'sink': (2, 3), 'unrouted': (2, 3), 'nomethod': (2, 3), 'options': (2, 3),
+            'field': (2, 3), 'suffix': (1, 2), 'falsy': (2, 3)}
+    plan.update({k: (1, 2) for k in method_kinds()})
+    return [(2, plan),
             (3, {'route': (2, 2), 'sink': (2, 2), 'unrouted': (1, 2), 'nomethod': (1, 2), 'field': (1, 2)})]
 
 
@@ -487,16 +534,34 @@ def exhaustive(rec):
                     app, ctx = build_app(script, stack)
                     for kind, (mf, reduced_from) in plan.items():
                         sites = reachable_sites(script, kind)
-                        for actions, hactions in placements(sites, mf, reduced_from):
+                        for actions, hactions in placements(sites, mf, reduced_from, 2 if rec.tier == 'quick' else 4):
                             case = {'stack': stack, 'kind': kind, 'actions': actions, 'hactions': hactions}
                             check_case(rec, script, case, app, ctx)
                             rec.case(case_key(skey, case) if actions else None)
                             rec.count('exh.faults.%d' % len(actions))
+                    if maxcomp == 2 and len(comps) == 2:
+                        # the app is reconfigured between requests: the 2nd component is registered with
+                        # add_middleware() only after the app has served requests
+                        app, ctx = build_app(script, stack, defer_from=1)
+                        sites = reachable_sites(script, 'route')
+                        for pre in (1, None):
+                            if pre is None:
+                                ctx.add_pending()
+                            for actions, hactions in placements(sites, 1, 2):
+                                if pre is not None and any(k.startswith('M1.') for k in actions):
+                                    continue
+                                case = {'stack': stack, 'kind': 'route', 'actions': actions, 'hactions': hactions}
+                                if pre is not None:
+                                    case['pre_add'] = pre
+                                check_case(rec, script, case, app, ctx)
+                                rec.case(case_key(skey, case) if actions else None)
+                                rec.count('exh.reconfigured.' + ('before_add' if pre is not None else 'after_add'))
         if rec.shard == 0:
             rec.note('exhaustive: all stacks of <= %d components x every non-empty subset of the 3 methods x both '
                      'independent_middleware values x both stacks x every fault placement per request kind '
                      '(max faults, reduced action set from) = %r (fixed hook stack: class before, after; method '
-                     'after, before on on_get; on_get and on_get_items inherited from an undecorated base class)'
+                     'after, before on on_get; on_get, on_get_items and every second other responder inherited from an '
+                     'undecorated base class)'
                      % (maxcomp, plan))
     rec.exhaustive = True
 
@@ -520,19 +585,22 @@ def random_script(rng):
     hid = itertools.count()
     hooks_class = [[rng.choice(['before', 'after']), next(hid)] for _ in range(rng.choice([0, 0, 1, 1, 2, 3]))]
     hooks_method = [[rng.choice(['before', 'after']), next(hid)] for _ in range(rng.choice([0, 1, 2, 3, 4]))]
-    inherit = [nm for nm in ('on_get', 'on_get_f', 'on_get_items') if rng.random() < 0.5]
+    inherit = [nm for nm in M.all_responders() if rng.random() < 0.5]
     hooks_base = [[rng.choice(['before', 'after']), next(hid)] for _ in range(rng.choice([0, 0, 1, 2]))] if inherit else []
     script = {'independent': rng.random() < 0.5, 'comps': comps, 'hooks_class': hooks_class,
               'hooks_method': hooks_method, 'inherit': inherit, 'hooks_base': hooks_base}
     if n and rng.random() < 0.3:
         script['ctor'] = rng.randrange(0, n)
         script['add_single'] = rng.random() < 0.5
+        script['add_after_requests'] = rng.random() < 0.5
     return script
 
 
 def random_case(rng, script, stack):
     kind = rng.choice(['route', 'route', 'route', 'field', 'suffix', 'options', 'nomethod', 'falsy', 'sink',
-                       'unrouted'])
+                       'unrouted', 'method', 'method', 'method'])
+    if kind == 'method':
+        kind = rng.choice(method_kinds())
     sites = reachable_sites(script, kind)
     # only sites that exist on this stack
     eff = dict(M.effective(script, stack))
@@ -559,16 +627,25 @@ def random_phase(rec, frac):
             if not usable_on(script, stack):
                 rec.count('random.skipped_stack.' + stack)
                 continue
+            defer = script.get('ctor') if script.get('add_after_requests') else None
             try:
-                app, ctx = build_app(script, stack)
+                app, ctx = build_app(script, stack, defer_from=defer)
             except Exception as ex:  # noqa
                 rec.violation('build-raised', {'script': script, 'stack': stack, 'exc': repr(ex)})
                 continue
             rec.count('random.apps.' + stack)
             if script.get('ctor') is not None:
                 rec.count('random.add_middleware_later')
-            for _ in range(30):
-                case = random_case(rng, script, stack)
+            if defer is not None:
+                rec.count('random.add_middleware_between_requests')
+            for j in range(30):
+                if defer is not None and j == 10:
+                    ctx.add_pending()
+                if defer is not None and j < 10:
+                    case = random_case(rng, registered_script(script, {'pre_add': defer}), stack)
+                    case['pre_add'] = defer
+                else:
+                    case = random_case(rng, script, stack)
                 check_case(rec, script, case, app, ctx)
                 rec.case(case_key(skey, case) if nontrivial(case) else None)
                 rec.count('random.faults.%d' % min(len(case['actions']), 3))
@@ -581,19 +658,30 @@ def random_phase(rec, frac):
 
 # ------------------------------------------------------------------ lifespan
 
-def run_lifespan_case(rec, script, lactions, count=True, built=None):
+def run_lifespan_case(rec, script, lactions, count=True, built=None, late=None):
+    ctx = None
     if built is None:
         lctx = {'trace': [], 'log': [], 'actions': lactions}
         try:
-            app, _ = build_app(script, 'asgi', lctx)
+            app, ctx = build_app(script, 'asgi', lctx,
+                                 defer_from=len(script['comps']) - late['n'] if late else None)
         except Exception as ex:  # noqa
             rec.violation('build-raised', {'script': script, 'stack': 'asgi', 'exc': repr(ex)})
             return
     else:
         app, lctx = built
         lctx['trace'], lctx['log'], lctx['actions'] = [], [], lactions
-    want_trace, want_sent = M.interpret_lifespan(script, lactions)
-    sent, outcome, val = A.run_lifespan(app, server_like=True, log=lctx['log'])
+    want_trace, want_sent = M.interpret_lifespan(script, lactions, late)
+    while_running = None
+    if late:
+        def register():
+            lctx['log'].append(('add_middleware', late['n']))
+            ctx.add_pending()
+        if late['when'] == 'between':
+            while_running = register
+        else:
+            lctx['in_startup'] = {late['by']: register}
+    sent, outcome, val = A.run_lifespan(app, server_like=True, log=lctx['log'], while_running=while_running)
     got_sent = [e.get('type') if isinstance(e, dict) else repr(e) for e in sent]
     got_trace = lctx['trace']
     if count:
@@ -601,7 +689,13 @@ def run_lifespan_case(rec, script, lactions, count=True, built=None):
         rec.count('lifespan.' + want_sent[-1])
         if len(want_trace) >= 3:
             rec.count('lifespan.ge3_handlers')
-    wit = {'lifespan': True, 'script': script, 'lactions': lactions, 'got_trace': got_trace,
+    if count and late:
+        rec.count('lifespan.late.' + late['when'])
+        if any(t[0] == 'shutdown' and t[1] >= len(script['comps']) - late['n'] for t in want_trace):
+            rec.count('lifespan.late.shutdown_of_late_component')
+        if any(t[0] == 'startup' and t[1] >= len(script['comps']) - late['n'] for t in want_trace):
+            rec.count('lifespan.late.startup_of_late_component')
+    wit = {'lifespan': True, 'script': script, 'lactions': lactions, 'late': late, 'got_trace': got_trace,
            'want_trace': want_trace, 'got_sent': got_sent, 'want_sent': want_sent, 'outcome': outcome,
            'log': lctx['log']}
     if outcome == 'raised':
@@ -637,6 +731,12 @@ def run_lifespan_case(rec, script, lactions, count=True, built=None):
             if ('receive', 'lifespan.shutdown') not in log[:k]:
                 rec.violation('lifespan-shutdown-before-event', wit)
                 return
+    # components registered late take part in request processing like the others
+    if late and ctx is not None and any(e[0] == 'add_middleware' for e in log):
+        case = {'stack': 'asgi', 'kind': 'route', 'actions': {}, 'hactions': ['ret']}
+        if count:
+            rec.count('lifespan.late.http_after')
+        check_case(rec, script, case, app, ctx, count=False)
 
 
 def lifespan_exhaustive(rec):
@@ -667,14 +767,52 @@ def lifespan_exhaustive(rec):
                     rec.case(('lifespan', tuple(combo), reqmask, tuple(sorted(lactions))) if hs else None)
 
 
+def lifespan_late_exhaustive(rec):
+    """The last k of <= 3 components are registered with add_middleware() after the lifespan scope was opened:
+    between startup and shutdown, or from inside an earlier component's process_startup.  Every
+    startup/shutdown subset per component, every such registration point, fault-free and every single raise."""
+    idx = 0
+    opts = [(False, False), (True, False), (False, True), (True, True)]
+    for n in range(1, 4):
+        for combo in itertools.product(opts, repeat=n):
+            comps = [{'req': 'plain', 'rsrc': None, 'resp': 'plain' if k % 2 else None, 'startup': su, 'shutdown': sd}
+                     for k, (su, sd) in enumerate(combo)]
+            script = {'independent': True, 'comps': comps, 'hooks_class': [], 'hooks_method': []}
+            hs = ['M%d.startup' % i for i, c in enumerate(comps) if c['startup']] + \
+                 ['M%d.shutdown' % i for i, c in enumerate(comps) if c['shutdown']]
+            for k in range(1, min(2, n) + 1):
+                whens = [{'n': k, 'when': 'between'}]
+                whens += [{'n': k, 'when': 'startup', 'by': i} for i in range(n - k) if comps[i]['startup']]
+                for add_single in (False, True):
+                    for late in whens:
+                        idx += 1
+                        if idx % rec.nshards != rec.shard:
+                            continue
+                        sc = dict(script, add_single=add_single)
+                        for lactions in [{}] + [{h: 'raise'} for h in hs]:
+                            run_lifespan_case(rec, sc, lactions, late=late)
+                            rec.case(('lifespan-late', tuple(combo), k, add_single, tuple(sorted(late.items())),
+                                      tuple(lactions)))
+
+
 def check_lifespan_random(rec, rng, script):
     hs = [('M%d.startup' % i) for i, c in enumerate(script['comps']) if c.get('startup')] + \
          [('M%d.shutdown' % i) for i, c in enumerate(script['comps']) if c.get('shutdown')]
     if not usable_on(script, 'asgi'):
         return
     lactions = {h: 'raise' for h in hs if rng.random() < 0.25}
-    run_lifespan_case(rec, script, lactions)
-    rec.case(('lifespan-r', script_key(script), tuple(sorted(lactions))) if hs else None)
+    late = None
+    n = len(script['comps'])
+    if n and rng.random() < 0.4:
+        k = rng.randint(1, n)
+        cands = [i for i in range(n - k) if script['comps'][i].get('startup')]
+        if cands and rng.random() < 0.5:
+            late = {'n': k, 'when': 'startup', 'by': rng.choice(cands)}
+        else:
+            late = {'n': k, 'when': 'between'}
+        script = {k2: v for k2, v in script.items() if k2 != 'ctor'}
+    run_lifespan_case(rec, script, lactions, late=late)
+    rec.case(('lifespan-r', script_key(script), tuple(sorted(lactions)), repr(late)) if hs else None)
 
 
 # ------------------------------------------------------------------ entry points
@@ -697,15 +835,26 @@ def set_floors(rec):
                   'inherit.class_before', 'inherit.class_after', 'inherit.class_after_innermost',
                   'inherit.base_hook', 'own.class_hook'):
             rec.floor('cls.%s.%s' % (stack, c), 20)
-        for k in REQUESTS:
+        for k in ('route', 'field', 'suffix', 'options', 'nomethod', 'falsy', 'sink', 'unrouted'):
             rec.floor('kind.%s.%s' % (stack, k), 50)
+        for k in method_kinds():
+            rec.floor('kind.%s.%s' % (stack, k), 10)
+        for c in ('method.http', 'method.webdav', 'method.custom', 'classhook.http', 'classhook.webdav',
+                  'classhook.custom', 'classhook.http.suffixed', 'classhook.webdav.suffixed',
+                  'classhook.custom.suffixed'):
+            rec.floor('cls.%s.%s' % (stack, c), 20)
         rec.floor('random.apps.' + stack, 5)
     rec.floor('mon.lifespan', 200)
     for ev in ('lifespan.startup.failed', 'lifespan.shutdown.failed', 'lifespan.shutdown.complete'):
         rec.floor('lifespan.' + ev, 10)
     rec.floor('lifespan.ge3_handlers', 5)
+    for c in ('between', 'startup', 'shutdown_of_late_component', 'startup_of_late_component', 'http_after'):
+        rec.floor('lifespan.late.' + c, 20)
     rec.floor('random.faults.3', 20)
     rec.floor('random.add_middleware_later', 3)
+    rec.floor('random.add_middleware_between_requests', 2)
+    rec.floor('exh.reconfigured.before_add', 50)
+    rec.floor('exh.reconfigured.after_add', 50)
 
 
 def run(rec):
@@ -725,6 +874,7 @@ def run(rec):
                        'ASGI hooks and handlers are coroutine functions']
     set_floors(rec)
     lifespan_exhaustive(rec)
+    lifespan_late_exhaustive(rec)
     exhaustive(rec)
     random_phase(rec, 0.9 if rec.tier == 'quick' else 0.95)
 
@@ -736,13 +886,13 @@ def replay(rec, w):
     wit = w['witness']
     script = wit['script']
     if wit.get('lifespan'):
-        run_lifespan_case(rec, script, wit['lactions'])
+        run_lifespan_case(rec, script, wit['lactions'], late=wit.get('late'))
         rec.case(('lifespan', repr(wit['lactions'])))
         rec.case(('lifespan-replay', 1))
         return
     case = wit['case']
-    app, ctx = build_app(script, case['stack'])
-    want = M.interpret(script, case)
+    app, ctx = build_app(script, case['stack'], defer_from=case.get('pre_add'))
+    want = M.interpret(registered_script(script, case), case)
     ok = check_case(rec, script, case, app, ctx)
     print('expected trace:', want[0], 'status', want[1])
     print('got trace     :', ctx.trace)
